@@ -277,3 +277,7 @@ Definition run_case (c : string * list op) : string :=
   | Ok i => String.concat "|" (map (run_op i) (snd c))
   | Raise e => "E:" ++ show_exn e
   end.
+
+(* shorthands used by the non-vacuity examples of Properties/C17.v *)
+Definition secs (n : num) : quantity := {| q_mag := n; q_dims := seconds_dims |}.
+Definition on (s : string) (f : Z -> res Z) : string := show_T (bind (instant_from_iso s) f).
